@@ -2,6 +2,7 @@ import Hive.Proofs.Ads
 import Hive.Proofs.AdsTrieExt
 import Hive.Model.AdsTrieLine
 import Hive.Proofs.AdsConc
+import Hive.Proofs.AdsRealm
 import Hive.Gen.C09_Skel
 /-!
 # C09 — authenticated map / set: contents, content-only root, faithful reopen
@@ -429,6 +430,81 @@ example :
       = runOps [.put [true, false, true] [9], .put [true, false, true] [1]] ∧
     (runOps [.put [true, false, true] [1], .put [true, false, false] [2]]).digest freeHash
       = .inner .nil (.inner (.inner (.leaf [true, false, false] [2]) (.leaf [true, false, true] [1])) .nil) := by
+  decide
+
+/-! ## several instances in one database
+
+`Hive/Model/AdsRealm.lean`: the constructor derives the raw-key realm `r ++ [0]`, the node-store
+realm `r ++ [1]`, the root cell `r ++ [2]` and the size cell `r ++ [3]` from the realm `r` of the
+store view it is given (`layout`); the sessions of the correspondence run are executed on this
+layer, with instances over sibling, nested and prefix-related realm views of one shared mapdb. -/
+
+/-- **Instances are independent.**  A call on the instance with realm `r₁` (any call, any state of
+the database) is the sequential step on that instance's own state, and leaves the state of the
+instance of every other realm `r₂` exactly as it was — its trie store, raw keys, root and size. -/
+theorem C09_instances_independent (c : Cfg R) (db : DB R) (r₁ r₂ : Realm) (mem₁ mem₂ : KV) (op : Op)
+    (h : r₁ ≠ r₂) :
+    load layout (stepAt c layout db r₁ mem₁ op).1 r₂ mem₂ = load layout db r₂ mem₂ ∧
+    load layout (stepAt c layout db r₁ mem₁ op).1 r₁ (stepAt c layout db r₁ mem₁ op).2.1 =
+      (step c (load layout db r₁ mem₁) op).1 ∧
+    (stepAt c layout db r₁ mem₁ op).2.2 = (step c (load layout db r₁ mem₁) op).2 :=
+  ⟨stepAt_other c db r₁ r₂ mem₁ mem₂ op h, (stepAt_self c db r₁ mem₁ op).1, (stepAt_self c db r₁ mem₁ op).2⟩
+
+/-- The same over whole interleaved histories of any number of instances: the state of the
+instance with realm `r` after the interleaving is its state after its own calls alone — so every
+theorem of this file holds for each instance of a shared database. -/
+theorem C09_instances_independent_run (c : Cfg R) (w : World R) (ops : List (Realm × Op)) (r : Realm) :
+    load layout (runW c w ops).1 r ((runW c w ops).2 r) = final c (load layout w.1 r (w.2 r)) (callsOf r ops) :=
+  runW_project c w ops r
+
+/-- **The key spaces are disjoint in the flat store**: for compatible realms (no region id of one is a
+prefix of a region id of the other — e.g. sibling realms, nested realms `r` / `r ++ s` with `s` not
+starting with a byte `0..3`) no store key lies in regions of both instances, and within one instance
+a store key lies in at most one of its four regions.  This is what makes the region-granular
+database of the model a faithful view of the key-value store. -/
+theorem C09_key_spaces_disjoint (r₁ r₂ : Realm) (h : compatible r₁ r₂ = true) (key : List UInt8) :
+    ¬ (owned r₁ key ∧ owned r₂ key) ∧
+    ∀ a b : UInt8, (r₁ ++ [a]) <+: key → (r₁ ++ [b]) <+: key → a = b := by
+  constructor
+  · rintro ⟨⟨a, ha, hpa⟩, ⟨b, hb, hpb⟩⟩
+    obtain ⟨n1, n2⟩ := compatible_spec h a b ha hb
+    rcases List.prefix_or_prefix_of_prefix hpa hpb with hp | hp
+    · exact n1 hp
+    · exact n2 hp
+  · intro a b hpa hpb
+    have hlen : (r₁ ++ [a]).length ≤ (r₁ ++ [b]).length := by simp
+    have hp := List.prefix_of_prefix_length_le hpa hpb hlen
+    have := List.IsPrefix.eq_of_length hp (by simp)
+    exact List.singleton_inj.mp (List.append_cancel_left this)
+
+/-- Sibling realms, a nested realm and a realm that is a prefix of another are compatible; a realm
+continued with a byte `0..3` is not (it would live inside the other instance's raw keys). -/
+example : compatible [0x61] [0x62] = true ∧ compatible [0x61] [0x61, 0x62] = true ∧
+    compatible [0x61, 0x62] [0x61, 0x63, 0x64] = true ∧ compatible [] [0x61] = true ∧
+    compatible [0x61] [0x61, 0x00, 0x05] = false ∧ compatible [0x61] [0x61] = false := by decide
+
+/-- Two instances in the sibling realms `a`, `b` of one database hold the same entry and commit; the
+second deletes it and commits; then the first is reopened.  The state of the first afterwards. -/
+def siblingScenario (L : Layout) : St Unit :=
+  let c : Cfg Unit := { rootOf := fun _ => (), dec := fun _ => .ok }
+  let a : Realm := [0x61]
+  let b : Realm := [0x62]
+  let s₁ := stepAt c L DB.empty a [] (.set (some [1]) (some [7]))
+  let s₂ := stepAt c L s₁.1 a s₁.2.1 .commit
+  let t₁ := stepAt c L s₂.1 b [] (.set (some [1]) (some [7]))
+  let t₂ := stepAt c L t₁.1 b t₁.2.1 .commit
+  let t₃ := stepAt c L t₂.1 b t₂.2.1 (.del (some [1]))
+  let t₄ := stepAt c L t₃.1 b t₃.2.1 .commit
+  let a' := stepAt c L t₄.1 a s₂.2.1 .reopen
+  load L a'.1 a a'.2.1
+
+/-- What the relative realm is needed for (regression witness for "node store opened with the absolute
+realm `{1}`"): with one node store shared by the sibling instances, the reopened first instance still
+reports `Size() = 1` and its stored root, but its entry is gone; with the code's layout it is there. -/
+theorem C09_shared_tree_realm_witness :
+    sizeOf (siblingScenario sharedTreeLayout) = 1 ∧ (siblingScenario sharedTreeLayout).rootKey.isSome = true ∧
+    has (siblingScenario sharedTreeLayout) [1] = false ∧
+    sizeOf (siblingScenario layout) = 1 ∧ has (siblingScenario layout) [1] = true := by
   decide
 
 /-! ## concurrent use: the map's RWMutex makes every call atomic
